@@ -254,6 +254,8 @@ class World:
                     ident = self.ctx(n) if n == "D" else v.gid(n)
                     member.append({"q": t + [n], "r": (v.triple(t) + (ident,)) in ds})
             o["member"] = member
+            # a triple asked of the dataset itself: the default graph, or the union when default_union is on
+            o["tmember"] = [{"t": t, "r": v.triple(t) in ds} for t in self.U]
             ctxq = []
             for n in names:
                 if n == "D" and self.cfg.get("default_union"):
